@@ -93,8 +93,22 @@ def extra_family() -> list[dict]:
     return fam
 
 
+def control_family() -> list[dict]:
+    """suspending tasks (signals), mutex pairs, deferred-choice groups"""
+    fam = []
+    fam.append(P("susp", [S("a"), S("w", ["a"], tasks=[T("w.1", "suspend")]), S("z", ["w"])]))
+    fam.append(P("suspmulti", [S("w", tasks=[T("w.1"), T("w.2", "suspend"), T("w.3")]), S("z", ["w"])]))
+    fam.append(P("suspside", [S("a"), S("w", ["a"], tasks=[T("w.1", "suspend")]), S("x", ["a"]), S("z", ["w", "x"])]))
+    fam.append(P("mutex2", [S("a"), S("b", ["a"], mutex="m"), S("c", ["a"], mutex="m"), S("d", ["b", "c"])]))
+    fam.append(P("mutex3", [S("b", mutex="m", tasks=[T("b.1"), T("b.2")]), S("c", mutex="m"), S("e", mutex="m")]))
+    fam.append(P("mutexfail", [S("a"), S("b", ["a"], mutex="m", tasks=[T("b.1", "terminal")]), S("c", ["a"], mutex="m")]))
+    fam.append(P("choice2", [S("a"), S("b", ["a"], choice="g"), S("c", ["a"], choice="g"), S("d", ["b"]), S("e", ["c"])]))
+    fam.append(P("choice3", [S("b", choice="g"), S("c", choice="g"), S("e", choice="g", tasks=[T("e.1"), T("e.2")])]))
+    return fam
+
+
 def all_programs() -> list[dict]:
-    return core_family() + extra_family()
+    return core_family() + extra_family() + control_family()
 
 
 # ----------------------------------------------------------------------------------------------
